@@ -97,8 +97,9 @@ pub fn c15_eval(bytes: &[u8], uni: &'static str, acc: &mut Acc) {
             Err(e) => e,
         };
         check_error(text, e2.message(), e2.span(), &e2.to_string(), &format!("{:?}", e2), "toml::de::Error")?;
-        if e2.span() != e.span() || e2.message() != e.message() {
-            return Err((None, format!("toml::de::Error ({:?}, {:?}) differs from TomlError ({:?}, {:?})", e2.span(), e2.message(), e.span(), e.message())));
+        // same text, same rejection: the serde front end must point at the same place (the wording may differ)
+        if e2.span() != e.span() {
+            return Err((None, format!("toml::de::Error is located at {:?} ({:?}) but TomlError at {:?} ({:?})", e2.span(), e2.message(), e.span(), e.message())));
         }
         Ok(true)
     });
